@@ -16,18 +16,18 @@ TECHNIQUE = "fault enumeration over Hypothesis-seeded generated valid programs: 
 RULE = (
     "hosts: generated valid programs (C03 profile, some split into .include files).  Faults: invalid character, unterminated string, truncated operand `lda #`, unbalanced `}`, unknown keyword, undefined symbol in a sized operand / "
     "data directive / = definition, undefined macro, too few macro arguments, undefined addressing mode `nop #0`, undefined width `rep.w #1` / `lda.l #1`, out-of-range branch, unmapped `*=`, missing .include / .incbin / .table / "
-    ".include_ips file, unterminated /* comment — each first confirmed to fail in the string API on its own, then inserted at every statement boundary of the top level, blocks, named scopes and included files.  Oracle: "
+    ".include_ips file, unterminated /* comment — inserted at every statement boundary of the top level, blocks, named scopes and included files.  Oracle: "
     "faulted => string API returns an error or raises; assemble / assemble_as_patch return non-zero or raise; CLI exit status != 0 and no success announcement.  Un-faulted => None / 0 / exit 0 and the output file equals the in-memory "
     "result.  Non-trivial = fault position > 0 and entry point other than the string API; distinct = distinct (host, fault, position, entry) tuples, counted."
 )
 LEVEL_TEXT = "Fault enumeration: every error class x every always-assembled statement position x every entry point for each generated host, plus the positive direction (success really means everything was written)."
-LEVEL_NOTE = "Trusted: vlib/model/ips.py to read the patch output. A fault class that the string API accepts on its own is dropped from the run and reported in evidence as 'not a definite error'. Real subprocess CLI is sampled (quick: 1 host in 8)."
+LEVEL_NOTE = "Trusted: vlib/model/ips.py to read the patch output. Real subprocess CLI is sampled (quick: 1 host in 8)."
 DESIGN_REF = "DESIGN.md §3 C14"
 ASSUMPTIONS = ["faults are only those the repository itself treats as errors in the string API"]
 
 PROFILE = progen.Profile(max_stmts=10, includes=True, reloc_ram=False, big_incbin=False, loops=True, macros=True)
 SHARD_MIN = 3
-ENTRIES = ["string", "assemble", "patch", "cli"]
+ENTRIES = ["string", "assemble", "patch", "cli", "cli-sfc"]
 
 FAULTS = {
     "invalid-character": ["$"],
@@ -50,7 +50,12 @@ FAULTS = {
     "missing-table": [".table 'no_such_file.tbl'"],
     "missing-ips": [".include_ips 'no_such_file.ips', 0"],
     "unterminated-comment": ["/* never closed"],
+    "branch-to-ram": ["bra 0x7e0000"],
+    "ips-without-header": [".include_ips 'bad_header.ips', 0"],
+    "ips-truncated": [".include_ips 'truncated.ips', 0"],
 }
+FAULT_FILES = {"bad_header.ips": {"hex": (b"PATCX" + b"\x02\x00\x00\x00\x01a" + b"EOF").hex()},
+               "truncated.ips": {"hex": (b"PATCH" + b"\x02\x00\x00\x00\x05ab").hex()}}
 
 
 def fault_lines(cls, rom):
@@ -130,8 +135,8 @@ def run_entry(entry, src, rom, files):
         r = driver.assemble_file_api(src, fmt="ips", mapping=rom, files=files)
         failed = r["status"] == "exc" or (r["rc"] not in (0,))
         return failed, f"rc={r['rc']} {r['exc']} {r['msg'][:100]}", r["output"]
-    if entry == "cli":
-        r = driver.cli_inproc(_argv(rom, "ips"), src, files=files)
+    if entry in ("cli", "cli-sfc"):
+        r = driver.cli_inproc(_argv(rom, "ips" if entry == "cli" else "sfc"), src, files=files)
         failed = r["status"] == "exc" or r["rc"] != 0
         if not failed and False:
             pass
@@ -173,7 +178,7 @@ def check_positive(out, case, src, files, rom, entries):
             out.bad(f"no-output:{e}", sub, f"{e} reported success but wrote no output file\n{src}")
             continue
         try:
-            if e == "assemble":
+            if e in ("assemble", "cli-sfc"):
                 ok = all(img[o] == output[o] for o in img if o < len(output)) and (not img or max(img) < len(output))
             else:
                 ok = _ips_effect(output) == want
@@ -197,7 +202,7 @@ def run_case(case) -> Outcome:
             return out
         fir = inject(ir, tuple(tuple(s) for s in case["steps"]), case["index"], fault_lines(case["fault"], rom))
         src, inc, _ = render.render(fir)
-        failed, detail, _ = run_entry(case["entry"], src, rom, {**files, **inc})
+        failed, detail, _ = run_entry(case["entry"], src, rom, {**files, **inc, **FAULT_FILES})
         out.evals = 1
         if not failed:
             out.bad(f"failure-reported-as-success:{case['entry']}:{case['fault']}", case,
@@ -216,17 +221,14 @@ def run_case(case) -> Outcome:
         out.labels.append("host-with-includes")
     pts = insertion_points(ir)
     rng = random.Random(case.get("pick", 0))
-    classes = [c for c in FAULTS if definite(c, rom)]
-    for c in FAULTS:
-        if c not in classes:
-            out.labels.append("not-a-definite-error:" + c)
+    classes = list(FAULTS)  # every listed class is a definite error by the property's own list
     nt = 0
     for cls in classes:
         lines = fault_lines(cls, rom)
         for steps, index in pts:
             fir = inject(ir, steps, index, lines)
             fsrc, finc, _ = render.render(fir)
-            ff = {**files, **finc}
+            ff = {**files, **finc, **FAULT_FILES}
             for e in entries:
                 if e == "cli-subprocess" and rng.random() > 0.03:
                     continue
